@@ -1048,6 +1048,20 @@ fn has_split_row(t: &Ty) -> bool {
     }
 }
 
+/// A GADT-style constructor with an implicit argument on the spine of its type.
+fn has_gadt_implicit(t: &Ty) -> bool {
+    fn spine_implicit(t: &Ty) -> bool {
+        match t {
+            Ty::Fun(i, _, r) => *i || spine_implicit(r),
+            _ => false,
+        }
+    }
+    match t {
+        Ty::Variant(cs, _) if cs.iter().any(|c| matches!(&c.1, Ctor::Gadt(g) if spine_implicit(g))) => true,
+        _ => children(t).iter().any(has_gadt_implicit),
+    }
+}
+
 fn fingerprint(min: &Ty, v: &Verdict) -> String {
     let kind = match v {
         Verdict::Ok => "ok",
@@ -1060,6 +1074,9 @@ fn fingerprint(min: &Ty, v: &Verdict) -> String {
     }
     if has_split_row(min) {
         return format!("{}:record-split-row", kind);
+    }
+    if has_gadt_implicit(min) {
+        return format!("{}:gadt-ctor-implicit-arg", kind);
     }
     format!("{}:{}", kind, skeleton(min))
 }
@@ -1143,7 +1160,10 @@ impl Gen {
                 // GADT style: ends in an application of a constructor
                 let mut t = Ty::App(Box::new(Ty::Con("T".into())), Box::new(self.atom()));
                 for _ in 0..self.rng.below(3) {
-                    t = Ty::Fun(false, Box::new(self.ty(budget / 4)), Box::new(t));
+                    // (rarely) an implicit argument: the grammar turns every arrow on a GADT
+                    // constructor's spine into ArgType::Constructor (grammar.lalrpop:401-408)
+                    let implicit = self.rng.chance(1, 12);
+                    t = Ty::Fun(implicit, Box::new(self.ty(budget / 4)), Box::new(t));
                 }
                 if self.rng.chance(1, 4) {
                     t = Ty::Forall(vec![self.pick(VARS)], Box::new(t));
